@@ -323,7 +323,7 @@ class Gen(object):
         if c == 4: return 'L[%s]' % I()
         if c == 5: return '(o.lst + L)[%s:][0]' % self.small_int()
         if c == 6: return '(D or o.dct)[%s]' % self.pick(["'k'", "'j'"])
-        return '(L if %s else o.lst)[%s]' % (self.t_bool(d), self.pick(['0', '1', '-1']))
+        return '(L if %s else o.lst)[%s]' % (P(self.t_bool(d)), self.pick(['0', '1', '-1']))
 
     def int_from_other(self, d):
         c = self.num(0, 6)
@@ -435,7 +435,10 @@ class Gen(object):
                 typ = 'any'
             else:
                 text = self.e(typ, d)
-            node = ast.parse(P(text), mode='eval').body
+            try:
+                node = ast.parse(P(text), mode='eval').body
+            except SyntaxError:          # a production embedded a sub-expression without parentheses (generator bug):
+                node = ast.Name('s', ast.Load())       # keep going with a plain name
             conv = self.pick([-1, -1, -1, ord('r'), ord('s'), ord('a')])
             if typ in ('str', 'dec', 'date') and self.coin(3):
                 conv = ord('r')                                   # where repr() differs from str()
@@ -608,6 +611,8 @@ class Gen(object):
 def normalise(text):
     """minimal-parenthesis rendering of the generated tree; None if Python's own unparse/parse do not round-trip
     (then the case is discarded by the caller and counted)"""
+    if text is None:
+        return None
     try:
         tree = ast.parse(text, mode='eval')
         out = ast.unparse(tree)
